@@ -25,7 +25,8 @@ META = {
             "couplings.ref from (scale, num_flavs_ref) and delete exactly the documented dropped keys after reading what they "
             "need; operator patches build init from (mu0, num_flavs_init); v1 adds matching_order (0,0), the use_fhmv rename "
             "and one integration core."
-            " The initial scale exactly on a default matching scale with no initial flavour number gets the upper flavour number.",
+            " The initial scale exactly on a default matching scale with no initial flavour number gets the upper flavour number."
+            " One legacy card upgraded five times with Q0 changed in between gives the default-flow point every time, and the upgrade leaves the caller's legacy cards as given.",
     "note": "Real legacy files are not read; the mapping table is the specification.",
     "technique": "partial evaluation of the converters on symbolic legacy dictionaries + exact comparison with a mapping table; version routing evaluated on a model file system with recording patches",
     "engine": "sa",
@@ -173,6 +174,36 @@ def run(chk):
                    f"{inst}: the upgraded initial point is {got}; required ({q0}, {nfd(q0)}) - the default flow of the matching scales {[str(w) for w in walls]} "
                    f"(squared), a scale on a matching scale belonging to the upper patch, as for the points of the evolution grid", where=nop.where,
                    instance=inst, how="PE vs default flow")
+    # ONE legacy card upgraded several times with the initial scale changed in place in between (a scan): every upgrade stands on its
+    # own - nothing inferred by an earlier one is remembered in the caller's dictionaries - and the cards themselves are left as given
+    pe = mk_pe()
+    th = legacy_theory()
+    op, mus = legacy_operator("mugrid")
+    import copy as _copy
+
+    stale, touched = None, None
+    for q0 in (Fraction(1), Fraction(5), Fraction(50), Fraction(200), Fraction(1)):
+        th["Q0"] = q0
+        before = (dict(th), _copy.copy(op) if isinstance(op, dict) else op)
+        try:
+            o = pe.instantiate(leg.qname, [th, op])
+            got = pe.getattr(o, "new_operator").get("init")
+            pe.getattr(o, "new_theory")
+        except PERaise as e:
+            got = f"raises {e}"
+        if not (isinstance(got, tuple) and got[0] == q0 and got[1] == nfd(q0)) and stale is None:
+            stale = (q0, got)
+        changed = [k for k in set(before[0]) | set(th) if not _eq(before[0].get(k, "<absent>"), th.get(k, "<absent>"))]
+        if changed and touched is None:
+            touched = (q0, changed)
+    n += 1
+    chk.decide(stale is None, "legacy-operator-mapping", nop.qname,
+               f"one legacy card upgraded repeatedly with Q0 changed in between: at Q0={stale[0] if stale else ''} the initial point is {stale[1] if stale else ''}; required "
+               f"({stale[0] if stale else ''}, {nfd(stale[0]) if stale else ''}) - something inferred by an earlier upgrade is remembered", where=nop.where,
+               instance="repeated upgrade of one card", how="PE of a sequence of upgrades on one dictionary")
+    chk.decide(touched is None, "upgrade-leaves-the-legacy-cards-as-given", nop.qname,
+               f"upgrading at Q0={touched[0] if touched else ''} changes the entries {touched[1] if touched else ''} of the caller's legacy theory card", where=nop.where,
+               instance="input cards", how="PE, cards compared before and after")
     chk.floor("legacy card cases", n, 84)
     # ---- archives ------------------------------------------------------------------------------------------------------------------------
     for ver, modname in ((1, "eko.io.v1"), (2, "eko.io.v2")):
